@@ -19,6 +19,7 @@
   node is registered (`R.reg`: every index consumed is registered - there are no associated-field nodes here).
 -/
 import BufrModel.Lemmas.WireSim
+import BufrModel.Lemmas.LinkInv
 namespace Bufr.C09
 open Bufr
 
@@ -223,8 +224,11 @@ structure Inv2 (a : Abs) (s : St) : Prop where
   skip : decide (s.regs.nbitsSkipped ≠ 0) = a.skip
   qa : QaIn a s.regs.qa
 
-/-- what is known about the FINAL flat lists: owners lie in front of their attributes (`C07.LinkInv`), no `A` label -/
-def Fin (o : SubsetOut) : Prop := (∀ p ∈ o.links, p.2 < p.1) ∧ (∀ d ∈ o.descs, d.isAssoc = false)
+/-- what is known about the FINAL flat lists: an owner lies in front of a bit-map operator item that lies in front of
+    the attribute (`C07.LinkInv`, proved for every template), no `A` label -/
+def Fin (o : SubsetOut) : Prop :=
+  (∀ l ∈ o.links, ∃ p id, l.2 < p ∧ p < l.1 ∧ C07.IsBitmapOp id ∧ o.descs[p]? = some (.oper id)) ∧
+    (∀ d ∈ o.descs, d.isAssoc = false)
 
 def Ext2 (s s' : St) : Prop := Ext s s' ∧ ∃ ll, s'.links = ll ++ s.links
 
@@ -246,6 +250,20 @@ theorem Inv2.ext_refl {a : Abs} {s : St} (h : Inv2 a s) : Ext2 s s := by
   obtain ⟨l, hl, _⟩ := h.vals
   exact ⟨⟨[], [], l, hl, by simpa using hl, rfl⟩, [], rfl⟩
 
+/-- no item of a bit-map operator at the positions `m .. n-1` of the final label list -/
+def NoOpFrom (o : SubsetOut) (m n : Nat) : Prop :=
+  ∀ p id, m ≤ p → p < n → o.descs[p]? = some (.oper id) → ¬ C07.IsBitmapOp id
+
+/-- a meaning node that is known lies behind the last bit-map operator -/
+def MeanOK (o : SubsetOut) (b : Bool) (fm : Option Nat) (n : Nat) : Prop :=
+  b = true → ∃ m, fm = some m ∧ m < n ∧ NoOpFrom o m n
+
+/-- the attributes a bitmap-linked node is created with: none, or its meaning node, which lies behind the owner -/
+def OwnOK (owner i : Nat) (own : List Node) : Prop :=
+  own = [] ∨ ∃ m, own = [.value .value m []] ∧ owner < m ∧ m < i
+
+def NonOp (dd : DDesc) : Prop := ∀ id, dd = .oper id → ¬ C07.IsBitmapOp id
+
 /-- the wiring pass's side -/
 structure R (o : SubsetOut) (a : Abs) (s : St) (w : WSt) : Prop where
   next : w.next = s.descs.length
@@ -254,10 +272,11 @@ structure R (o : SubsetOut) (a : Abs) (s : St) (w : WSt) : Prop where
   wq : w.waitQa = a.w
   w1 : w.wait1st = a.w1
   wD : w.waitDiff = a.wD
-  m1 : a.h1 = true → ∃ m, w.firstMeaning = some m ∧ m < w.next
-  mD : a.hD = true → ∃ m, w.diffMeaning = some m ∧ m < w.next
+  m1 : MeanOK o a.h1 w.firstMeaning w.next
+  mD : MeanOK o a.hD w.diffMeaning w.next
   reg : ∀ j, j < w.next → j ∈ w.reg
-  tabS : ∀ p ∈ w.tab, ∃ k i own, p.2 = .value k i own ∧ i < w.next ∧ lookupLink o.links i = some p.1
+  tabS : ∀ p ∈ w.tab, ∃ k i own, p.2 = .value k i own ∧ p.1 < i ∧ i < w.next ∧
+    lookupLink o.links i = some p.1 ∧ OwnOK p.1 i own
   tabC : ∀ q ∈ s.links, ∃ p ∈ w.tab, p.2.index? = some q.1
 
 def Sim2 {α : Type} (a a' : Abs) (good : SubsetOut → α → Prop) (s s' : St)
@@ -462,14 +481,41 @@ theorem take2 {o : SubsetOut} {dd : DDesc} {s s1 : St} {w : WSt} (hp : Pushed dd
   rw [hp.descs, List.length_cons] at hlen
   exact ⟨by omega, by rw [hn]; exact hb.label hp.descs⟩
 
+theorem MeanOK.push {o : SubsetOut} {b : Bool} {fm : Option Nat} {n : Nat} {dd : DDesc} (h : MeanOK o b fm n)
+    (hl : o.descs[n]? = some dd) (hd : NonOp dd) : MeanOK o b fm (n + 1) := by
+  intro hb
+  obtain ⟨m, e, hm, hno⟩ := h hb
+  refine ⟨m, e, by omega, fun p id h1 h2 h3 => ?_⟩
+  by_cases hp : p < n
+  · exact hno p id h1 hp h3
+  · have : p = n := by omega
+    subst this
+    rw [hl] at h3
+    injection h3 with h3
+    exact hd id h3
+
+theorem MeanOK.new {o : SubsetOut} {b : Bool} {n : Nat} {dd : DDesc} (hl : o.descs[n]? = some dd) (hd : NonOp dd) :
+    MeanOK o b (some n) (n + 1) := by
+  intro _
+  refine ⟨n, rfl, by omega, fun p id h1 h2 h3 => ?_⟩
+  have : p = n := by omega
+  subst this
+  rw [hl] at h3
+  injection h3 with h3
+  exact hd id h3
+
+theorem MeanOK.off {o : SubsetOut} {fm : Option Nat} {n : Nat} : MeanOK o false fm n := fun h => by cases h
+
+theorem MeanOK.congr {o : SubsetOut} {b b' : Bool} {fm : Option Nat} {n : Nat} (h : MeanOK o b fm n) (e : b' = b) :
+    MeanOK o b' fm n := by rw [e]; exact h
+
 /-- one index consumed, nothing attached -/
 theorem R.value {o : SubsetOut} {a a' : Abs} {s s' : St} {w w' : WSt} (h : R o a s w)
     (hd : s'.descs.length = s.descs.length + 1) (hl : s'.links = s.links)
     (hnext : w'.next = w.next + 1) (hdnp : w'.dnp = w.dnp) (hassoc : w'.assoc = w.assoc)
     (hreg : w'.reg = w.next :: w.reg) (htab : w'.tab = w.tab)
     (wq : w'.waitQa = a'.w) (w1 : w'.wait1st = a'.w1) (wD : w'.waitDiff = a'.wD)
-    (m1 : a'.h1 = true → ∃ m, w'.firstMeaning = some m ∧ m < w'.next)
-    (mD : a'.hD = true → ∃ m, w'.diffMeaning = some m ∧ m < w'.next) : R o a' s' w' := by
+    (m1 : MeanOK o a'.h1 w'.firstMeaning w'.next) (mD : MeanOK o a'.hD w'.diffMeaning w'.next) : R o a' s' w' := by
   refine ⟨by rw [hnext, hd, h.next], by rw [hdnp, h.dnp], by rw [hassoc, h.assoc], wq, w1, wD, m1, mD, ?_, ?_, ?_⟩
   · intro j hj
     rw [hreg]
@@ -478,8 +524,8 @@ theorem R.value {o : SubsetOut} {a a' : Abs} {s s' : St} {w w' : WSt} (h : R o a
     · exact List.mem_cons_of_mem _ (h.reg j (by omega))
   · intro p hp
     rw [htab] at hp
-    obtain ⟨k, i, own, e1, e2, e3⟩ := h.tabS p hp
-    exact ⟨k, i, own, e1, by omega, e3⟩
+    obtain ⟨k, i, own, e1, e0, e2, e3, e4⟩ := h.tabS p hp
+    exact ⟨k, i, own, e1, e0, by omega, e3, e4⟩
   · intro q hq
     rw [hl] at hq
     rw [htab]
@@ -491,16 +537,15 @@ theorem R.stay {o : SubsetOut} {a a' : Abs} {s s' : St} {w w' : WSt} (h : R o a 
     (hnext : w'.next = w.next) (hdnp : w'.dnp = w.dnp) (hassoc : w'.assoc = w.assoc)
     (hreg : w'.reg = w.reg) (htab : w'.tab = w.tab)
     (wq : w'.waitQa = a'.w) (w1 : w'.wait1st = a'.w1) (wD : w'.waitDiff = a'.wD)
-    (m1 : a'.h1 = true → ∃ m, w'.firstMeaning = some m ∧ m < w'.next)
-    (mD : a'.hD = true → ∃ m, w'.diffMeaning = some m ∧ m < w'.next) : R o a' s' w' := by
+    (m1 : MeanOK o a'.h1 w'.firstMeaning w'.next) (mD : MeanOK o a'.hD w'.diffMeaning w'.next) : R o a' s' w' := by
   refine ⟨by rw [hnext, hd, h.next], by rw [hdnp, h.dnp], by rw [hassoc, h.assoc], wq, w1, wD, m1, mD, ?_, ?_, ?_⟩
   · intro j hj
     rw [hreg]
     exact h.reg j (by omega)
   · intro p hp
     rw [htab] at hp
-    obtain ⟨k, i, own, e1, e2, e3⟩ := h.tabS p hp
-    exact ⟨k, i, own, e1, by omega, e3⟩
+    obtain ⟨k, i, own, e1, e0, e2, e3, e4⟩ := h.tabS p hp
+    exact ⟨k, i, own, e1, e0, by omega, e3, e4⟩
   · intro q hq
     rw [hl] at hq
     rw [htab]
@@ -511,11 +556,11 @@ theorem R.attr {o : SubsetOut} {a a' : Abs} {s s' : St} {w w' : WSt} {ll : List 
     {own : List Node} {owner : Nat} (h : R o a s w)
     (hd : s'.descs.length = s.descs.length + 1) (hl : s'.links = ll ++ s.links)
     (hk : ∀ q ∈ ll, q.1 = s.descs.length) (hlook : lookupLink o.links w.next = some owner)
+    (hlt : owner < w.next) (hown : OwnOK owner w.next own)
     (hnext : w'.next = w.next + 1) (hdnp : w'.dnp = w.dnp) (hassoc : w'.assoc = w.assoc)
     (hreg : w'.reg = w.next :: w.reg) (htab : w'.tab = (owner, .value k w.next own) :: w.tab)
     (wq : w'.waitQa = a'.w) (w1 : w'.wait1st = a'.w1) (wD : w'.waitDiff = a'.wD)
-    (m1 : a'.h1 = true → ∃ m, w'.firstMeaning = some m ∧ m < w'.next)
-    (mD : a'.hD = true → ∃ m, w'.diffMeaning = some m ∧ m < w'.next) : R o a' s' w' := by
+    (m1 : MeanOK o a'.h1 w'.firstMeaning w'.next) (mD : MeanOK o a'.hD w'.diffMeaning w'.next) : R o a' s' w' := by
   refine ⟨by rw [hnext, hd, h.next], by rw [hdnp, h.dnp], by rw [hassoc, h.assoc], wq, w1, wD, m1, mD, ?_, ?_, ?_⟩
   · intro j hj
     rw [hreg]
@@ -525,9 +570,9 @@ theorem R.attr {o : SubsetOut} {a a' : Abs} {s s' : St} {w w' : WSt} {ll : List 
   · intro p hp
     rw [htab] at hp
     rcases List.mem_cons.mp hp with rfl | hp
-    · exact ⟨k, w.next, own, rfl, by omega, hlook⟩
-    · obtain ⟨k', i, own', e1, e2, e3⟩ := h.tabS p hp
-      exact ⟨k', i, own', e1, by omega, e3⟩
+    · exact ⟨k, w.next, own, rfl, hlt, by omega, hlook, hown⟩
+    · obtain ⟨k', i, own', e1, e0, e2, e3, e4⟩ := h.tabS p hp
+      exact ⟨k', i, own', e1, e0, by omega, e3, e4⟩
   · intro q hq
     rw [hl] at hq
     rw [htab]
@@ -536,11 +581,1207 @@ theorem R.attr {o : SubsetOut} {a a' : Abs} {s s' : St} {w w' : WSt} {ll : List 
     · obtain ⟨p, hp, e⟩ := h.tabC q hq
       exact ⟨p, List.mem_cons_of_mem _ hp, e⟩
 
-theorem mean_keep {w w' : WSt} {b b' : Bool} {f : WSt → Option Nat} (h : b = true → ∃ m, f w = some m ∧ m < w.next)
-    (hf : f w' = f w) (hn : w.next ≤ w'.next) (hb : b' = b) : b' = true → ∃ m, f w' = some m ∧ m < w'.next := by
-  intro hb'
-  rw [hb] at hb'
-  obtain ⟨m, e, hm⟩ := h hb'
-  exact ⟨m, by rw [hf, e], by omega⟩
+/-- a silent step of the coder (registers the pass does not see) -/
+theorem R.vis {o : SubsetOut} {a : Abs} {s s1 : St} {w : WSt} (h : R o a s w) (v : Vis s s1) : R o a s1 w :=
+  ⟨by rw [v.descs]; exact h.next, h.dnp, h.assoc, h.wq, h.w1, h.wD, h.m1, h.mD, h.reg, h.tabS,
+    by rw [v.links]; exact h.tabC⟩
+
+/-! ### one item recorded by the coder -/
+
+/-- the label `dd` and one value were recorded, links `ll` (all keyed by the position of the item) were added -/
+structure Item (dd : DDesc) (ll : List (Nat × Nat)) (s s' : St) : Prop where
+  descs : s'.descs = dd :: s.descs
+  vals : ∀ l, s.vals.head? = some l → ∃ v, s'.vals.head? = some (v :: l)
+  al : (∀ l ∈ s.vals, l.length = s.descs.length) → ∀ l ∈ s'.vals, l.length = s'.descs.length
+  links : s'.links = ll ++ s.links
+  keys : ∀ q ∈ ll, q.1 = s.descs.length
+  assoc : s'.regs.assocStack = s.regs.assocStack
+  nref : s'.regs.nbitsNewRefval = s.regs.nbitsNewRefval
+  dnp : s'.regs.dnpCount = s.regs.dnpCount
+
+theorem Item.of_pushed {dd : DDesc} {s s' : St} (h : Pushed dd s s') : Item dd [] s s' :=
+  ⟨h.descs, h.vals, h.al, h.links, (fun _ hq => by cases hq), h.assoc, h.nref, h.dnp⟩
+
+theorem Item.pre {dd : DDesc} {ll : List (Nat × Nat)} {s s0 s' : St} (v : Vis s s0) (h : Item dd ll s0 s') :
+    Item dd ll s s' :=
+  ⟨by rw [h.descs, v.descs], by rw [← v.vals]; exact h.vals, by rw [← v.vals, ← v.descs]; exact h.al,
+    by rw [h.links, v.links], by rw [← v.descs]; exact h.keys, h.assoc.trans v.assoc, h.nref.trans v.nref,
+    h.dnp.trans v.dnp⟩
+
+theorem Item.post {dd : DDesc} {ll : List (Nat × Nat)} {s s1 s' : St} (h : Item dd ll s s1) (v : Vis s1 s') :
+    Item dd ll s s' :=
+  ⟨by rw [v.descs, h.descs], by rw [v.vals]; exact h.vals, by rw [v.vals, v.descs]; exact h.al,
+    by rw [v.links, h.links], h.keys, v.assoc.trans h.assoc, v.nref.trans h.nref, v.dnp.trans h.dnp⟩
+
+theorem Item.of_qa {x : Nat} {dd : DDesc} {ll : List (Nat × Nat)} {s s1 s' : St} (q : QaDone x s s1 ll)
+    (h : Pushed dd s1 s') : Item dd ll s s' :=
+  ⟨by rw [h.descs, q.descs], by rw [← q.vals]; exact h.vals, by rw [← q.vals, ← q.descs]; exact h.al,
+    by rw [h.links, q.links], q.keys, h.assoc.trans q.assoc, h.nref.trans q.nref, h.dnp.trans q.dnp⟩
+
+theorem Item.ext {dd : DDesc} {ll : List (Nat × Nat)} {a : Abs} {s s' : St} (hi : Inv2 a s) (it : Item dd ll s s') :
+    Ext2 s s' := by
+  obtain ⟨l, hl, _⟩ := hi.vals
+  obtain ⟨v, hv⟩ := it.vals l hl
+  exact ⟨⟨[dd], [v], l, hl, hv, it.descs⟩, ll, it.links⟩
+
+theorem Item.inv {dd : DDesc} {ll : List (Nat × Nat)} {a a' : Abs} {s s' : St} (hi : Inv2 a s) (it : Item dd ll s s')
+    (hA : dd.isAssoc = false) (hsk : decide (s'.regs.nbitsSkipped ≠ 0) = a'.skip) (hqa : QaIn a' s'.regs.qa) :
+    Inv2 a' s' := by
+  obtain ⟨l, hl, hn⟩ := hi.vals
+  obtain ⟨v, hv⟩ := it.vals l hl
+  refine ⟨it.assoc.trans hi.assoc, it.nref.trans hi.nref, it.dnp.trans hi.dnp,
+    ⟨v :: l, hv, by rw [it.descs, List.length_cons, List.length_cons, hn]⟩, it.al hi.al, ?_, hsk, hqa⟩
+  intro d hd
+  rw [it.descs] at hd
+  rcases List.mem_cons.mp hd with rfl | hd
+  · exact hA
+  · exact hi.noA d hd
+
+theorem Inv2.vis {a : Abs} {s s1 : St} (hi : Inv2 a s) (v : Vis s s1) (hq : s1.regs.qa = s.regs.qa) : Inv2 a s1 :=
+  ⟨v.assoc.trans hi.assoc, v.nref.trans hi.nref, v.dnp.trans hi.dnp, by rw [v.vals, v.descs]; exact hi.vals,
+    by rw [v.vals, v.descs]; exact hi.al, by rw [v.descs]; exact hi.noA, by rw [v.skipped]; exact hi.skip,
+    by rw [hq]; exact hi.qa⟩
+
+theorem Vis.ext2 {a : Abs} {s s1 : St} (hi : Inv2 a s) (v : Vis s s1) : Ext2 s s1 := by
+  obtain ⟨l, hl, _⟩ := hi.vals
+  exact ⟨⟨[], [], l, hl, by rw [v.vals]; simpa using hl, by rw [v.descs]; rfl⟩, [], by rw [v.links]; rfl⟩
+
+/-- a silent step of the coder in front of a simulated piece -/
+theorem Sim2.pre {α : Type} {a a' : Abs} {g : SubsetOut → α → Prop} {s s1 s' : St}
+    {run : SubsetOut → WSt → CM (α × WSt)} (hi : Inv2 a s) (v : Vis s s1)
+    (h : Sim2 a a' g s1 s' run) : Sim2 a a' g s s' run :=
+  ⟨⟨h.1.1, (v.ext2 hi).trans h.1.2⟩, fun o w hf hr hb => h.2 o w hf (hr.vis v) hb⟩
+
+/-! ### the shape of the nodes -/
+
+def ownShape (i : Nat) : List Node → Bool
+  | [] => true
+  | [.value .value m []] => decide (m < i)
+  | _ => false
+
+def valShape (N : Nat) : Node → Bool
+  | .value _ i own => decide (i < N) && ownShape i own
+  | _ => false
+
+mutual
+def shapeList (N : Nat) : List Node → Bool
+  | [] => true
+  | n :: ns => shape1 N n && shapeList N ns
+
+def shape1 (N : Nat) : Node → Bool
+  | .value k i own => valShape N (.value k i own)
+  | .noval _ => true
+  | .seq _ ms => shapeList N ms
+  | .fixedRep _ _ ms => shapeList N ms
+  | .delayedRep _ _ f ms => valShape N f && shapeList N ms
+end
+
+def Good1 (o : SubsetOut) (n : Node) : Prop := treeOK1 o n = true ∧ shape1 o.descs.length n = true
+def GoodL (o : SubsetOut) (ns : List Node) : Prop := treeOKList o ns = true ∧ shapeList o.descs.length ns = true
+
+theorem good_plain {o : SubsetOut} {k : VKind} {i : Nat} (h : i < o.descs.length) : Good1 o (.value k i []) := by
+  constructor
+  · rw [treeOK1]; rfl
+  · simp [shape1, valShape, ownShape, h]
+
+theorem good_noval (o : SubsetOut) (id : Nat) : Good1 o (.noval id) := ⟨by rw [treeOK1], by rw [shape1]⟩
+
+theorem shapeList_append (N : Nat) : ∀ (a b : List Node), shapeList N (a ++ b) = (shapeList N a && shapeList N b)
+  | [], b => by rw [List.nil_append, shapeList]; rfl
+  | x :: xs, b => by rw [List.cons_append, shapeList, shapeList, shapeList_append N xs b, Bool.and_assoc]
+
+theorem treeOKList_append (o : SubsetOut) : ∀ (a b : List Node),
+    treeOKList o (a ++ b) = (treeOKList o a && treeOKList o b)
+  | [], b => by rw [List.nil_append, treeOKList]; rfl
+  | x :: xs, b => by rw [List.cons_append, treeOKList, treeOKList, treeOKList_append o xs b, Bool.and_assoc]
+
+theorem GoodL.append {o : SubsetOut} {a b : List Node} (ha : GoodL o a) (hb : GoodL o b) : GoodL o (a ++ b) :=
+  ⟨by rw [treeOKList_append, ha.1, hb.1]; rfl, by rw [shapeList_append, ha.2, hb.2]; rfl⟩
+
+theorem GoodL.cons {o : SubsetOut} {a : Node} {b : List Node} (ha : Good1 o a) (hb : GoodL o b) : GoodL o (a :: b) :=
+  ⟨by rw [treeOKList, ha.1, hb.1]; rfl, by rw [shapeList, ha.2, hb.2]; rfl⟩
+
+theorem GoodL.nil (o : SubsetOut) : GoodL o [] := ⟨by rw [treeOKList], by rw [shapeList]⟩
+
+/-! ### simulated steps -/
+
+/-- flags of the wiring pass may change, everything else stays -/
+structure Flags (w w0 : WSt) : Prop where
+  next : w0.next = w.next
+  dnp : w0.dnp = w.dnp
+  assoc : w0.assoc = w.assoc
+  reg : w0.reg = w.reg
+  tab : w0.tab = w.tab
+  fm : w0.firstMeaning = w.firstMeaning
+  dm : w0.diffMeaning = w.diffMeaning
+
+theorem Flags.rfl' (w : WSt) : Flags w w := ⟨rfl, rfl, rfl, rfl, rfl, rfl, rfl⟩
+
+/-- the position the next item takes, and its label in the final list -/
+theorem item_pos {o : SubsetOut} {a : Abs} {dd : DDesc} {ll : List (Nat × Nat)} {s s' : St} {w : WSt}
+    (it : Item dd ll s s') (hr : R o a s w) (hb : Below2 o s') :
+    w.next < o.descs.length ∧ o.descs[w.next]? = some dd := by
+  have hlen := hb.1.len
+  rw [it.descs, List.length_cons] at hlen
+  exact ⟨by rw [hr.next]; omega, by rw [hr.next]; exact hb.1.label it.descs⟩
+
+/-- one item, wired as a plain value node (`add_value_node`), possibly after a change of flags -/
+theorem sim_plain {a a' : Abs} {s s' : St} {dd : DDesc} (hi : Inv2 a s) (it : Item dd [] s s')
+    (hA : dd.isAssoc = false) (hsk : decide (s'.regs.nbitsSkipped ≠ 0) = a'.skip) (hqa : QaIn a' s'.regs.qa)
+    (g : WSt → WSt) (hg : ∀ w, Flags w (g w))
+    (hfl : ∀ w, w.waitQa = a.w → w.wait1st = a.w1 → w.waitDiff = a.wD →
+      (g w).waitQa = a'.w ∧ (g w).wait1st = a'.w1 ∧ (g w).waitDiff = a'.wD)
+    (hm : (NonOp dd ∧ a'.h1 = a.h1 ∧ a'.hD = a.hD) ∨ (a'.h1 = false ∧ a'.hD = false)) :
+    Sim2 a a' Good1 s s' (fun o w => (g w).plainValue o) := by
+  refine ⟨⟨it.inv hi hA hsk hqa, it.ext hi⟩, fun o w hf hr hb => ?_⟩
+  obtain ⟨hlt, hlab⟩ := item_pos it hr hb
+  have fl := hg w
+  obtain ⟨q1, q2, q3⟩ := hfl w hr.wq hr.w1 hr.wD
+  have hlt' : (g w).next < o.descs.length := by rw [fl.next]; exact hlt
+  refine ⟨_, _, plainValue_eval hlt', ?_, by rw [fl.next]; exact good_plain hlt⟩
+  refine hr.value (by rw [it.descs]; rfl) (by rw [it.links]; rfl) (by show (g w).next + 1 = _; rw [fl.next]) fl.dnp
+    fl.assoc (by show (g w).next :: (g w).reg = _; rw [fl.next, fl.reg]) fl.tab q1 q2 q3 ?_ ?_
+  · show MeanOK o a'.h1 (g w).firstMeaning ((g w).next + 1)
+    rw [fl.fm, fl.next]
+    rcases hm with ⟨hn, e1, _⟩ | ⟨e1, _⟩
+    · exact (hr.m1.push hlab hn).congr e1
+    · rw [e1]; exact MeanOK.off
+  · show MeanOK o a'.hD (g w).diffMeaning ((g w).next + 1)
+    rw [fl.dm, fl.next]
+    rcases hm with ⟨hn, _, e1⟩ | ⟨_, e1⟩
+    · exact (hr.mD.push hlab hn).congr e1
+    · rw [e1]; exact MeanOK.off
+
+theorem meanW_cases (id : Nat) (w : WSt) :
+    ((id = 8023 ∧ w.wait1st = true) ∧ meanW id w =
+      { w with next := w.next + 1, reg := w.next :: w.reg, firstMeaning := some w.next, wait1st := false }) ∨
+    (¬ (id = 8023 ∧ w.wait1st = true) ∧ (id = 8024 ∧ w.waitDiff = true) ∧ meanW id w =
+      { w with next := w.next + 1, reg := w.next :: w.reg, diffMeaning := some w.next, waitDiff := false }) ∨
+    (¬ (id = 8023 ∧ w.wait1st = true) ∧ ¬ (id = 8024 ∧ w.waitDiff = true) ∧ meanW id w =
+      { w with next := w.next + 1, reg := w.next :: w.reg }) := by
+  unfold meanW
+  by_cases c1 : id = 8023 <;> by_cases c1' : w.wait1st = true <;> by_cases c2 : id = 8024 <;>
+    by_cases c2' : w.waitDiff = true <;> simp_all
+
+/-- one item, wired by the value-node branch of `wire_element_descriptor` (meaning bookkeeping included) -/
+theorem sim_elem_plain {a a0 a' : Abs} {s s' : St} {dd : DDesc} {id : Nat} (hi : Inv2 a s) (it : Item dd [] s s')
+    (hA : dd.isAssoc = false) (hnop : NonOp dd) (hsk : decide (s'.regs.nbitsSkipped ≠ 0) = a'.skip)
+    (hqa : QaIn a' s'.regs.qa)
+    (h0 : a0.w = a.w ∧ a0.w1 = a.w1 ∧ a0.wD = a.wD ∧ a0.h1 = a.h1 ∧ a0.hD = a.hD)
+    (ha' : a' = a0.meaning id) (hq : ¬ (xOf id = 33 ∧ a.w = true)) :
+    Sim2 a a' Good1 s s' (fun o w => wireElement o id w) := by
+  refine ⟨⟨it.inv hi hA hsk hqa, it.ext hi⟩, fun o w hf hr hb => ?_⟩
+  obtain ⟨hlt, hlab⟩ := item_pos it hr hb
+  obtain ⟨e1, e2, e3, e4, e5⟩ := h0
+  have hq' : ¬ (xOf id = 33 ∧ w.waitQa = true) := by rw [hr.wq]; exact hq
+  refine ⟨_, _, wireElement_plain hlt hr.assoc hq', ?_, good_plain hlt⟩
+  have hd : s'.descs.length = s.descs.length + 1 := by rw [it.descs]; rfl
+  have hl : s'.links = s.links := by rw [it.links]; rfl
+  subst ha'
+  rcases meanW_cases id w with ⟨c, e⟩ | ⟨c, d, e⟩ | ⟨c, d, e⟩ <;> rw [e]
+  · have ca : id = 8023 ∧ a0.w1 = true := by rw [e2, ← hr.w1]; exact c
+    unfold Abs.meaning
+    rw [if_pos ca]
+    exact hr.value hd hl rfl rfl rfl rfl rfl (by show w.waitQa = a0.w; rw [e1]; exact hr.wq) rfl
+      (by show w.waitDiff = a0.wD; rw [e3]; exact hr.wD) (MeanOK.new hlab hnop)
+      ((hr.mD.push hlab hnop).congr (by show a0.hD = a.hD; exact e5))
+  · have ca : ¬ (id = 8023 ∧ a0.w1 = true) := by rw [e2, ← hr.w1]; exact c
+    have da : id = 8024 ∧ a0.wD = true := by rw [e3, ← hr.wD]; exact d
+    unfold Abs.meaning
+    rw [if_neg ca, if_pos da]
+    exact hr.value hd hl rfl rfl rfl rfl rfl (by show w.waitQa = a0.w; rw [e1]; exact hr.wq)
+      (by show w.wait1st = a0.w1; rw [e2]; exact hr.w1) rfl
+      ((hr.m1.push hlab hnop).congr (by show a0.h1 = a.h1; exact e4)) (MeanOK.new hlab hnop)
+  · have ca : ¬ (id = 8023 ∧ a0.w1 = true) := by rw [e2, ← hr.w1]; exact c
+    have da : ¬ (id = 8024 ∧ a0.wD = true) := by rw [e3, ← hr.wD]; exact d
+    unfold Abs.meaning
+    rw [if_neg ca, if_neg da]
+    exact hr.value hd hl rfl rfl rfl rfl rfl (by show w.waitQa = a0.w; rw [e1]; exact hr.wq)
+      (by show w.wait1st = a0.w1; rw [e2]; exact hr.w1) (by show w.waitDiff = a0.wD; rw [e3]; exact hr.wD)
+      ((hr.m1.push hlab hnop).congr e4) ((hr.mD.push hlab hnop).congr e5)
+
+/-- the link the coder recorded for the item at `w.next` is found in the final links; its owner is registered and lies
+    in front of a bit-map operator item -/
+theorem attr_lookup {o : SubsetOut} {a : Abs} {s s' : St} {w : WSt} (hf : Fin o) (hr : R o a s w)
+    (hb : Below2 o s') {q : Nat × Nat} (hq : q ∈ s'.links) (hk : q.1 = w.next) :
+    ∃ owner, lookupLink o.links w.next = some owner ∧ owner < w.next ∧ owner ∈ w.reg ∧
+      ∃ p id, owner < p ∧ p < w.next ∧ C07.IsBitmapOp id ∧ o.descs[p]? = some (.oper id) := by
+  have hmem : q ∈ o.links := hb.2.subset (List.mem_reverse.mpr hq)
+  have : q = (w.next, q.2) := by rw [← hk]
+  rw [this] at hmem
+  obtain ⟨own', e, hm⟩ := lookupLink_mem hmem
+  obtain ⟨p, id, h1, h2, h3, h4⟩ := hf.1 _ hm
+  exact ⟨own', e, by simp only at h1 h2; omega, hr.reg own' (by simp only at h1 h2; omega), p, id, h1, h2, h3, h4⟩
+
+/-- one item that carries a link, wired as an attribute of the owner the link names -/
+theorem sim_attr {a a' : Abs} {s s' : St} {dd : DDesc} {ll : List (Nat × Nat)} (hi : Inv2 a s) (it : Item dd ll s s')
+    (hne : ll ≠ []) (hA : dd.isAssoc = false) (hnop : NonOp dd)
+    (hsk : decide (s'.regs.nbitsSkipped ≠ 0) = a'.skip) (hqa : QaIn a' s'.regs.qa)
+    (ha1 : a'.h1 = a.h1) (haD : a'.hD = a.hD) (k : VKind) (g : WSt → WSt) (hg : ∀ w, Flags w (g w))
+    (hfl : ∀ w, w.waitQa = a.w → w.wait1st = a.w1 → w.waitDiff = a.wD →
+      (g w).waitQa = a'.w ∧ (g w).wait1st = a'.w1 ∧ (g w).waitDiff = a'.wD)
+    (ownf : WSt → List Node) (run : SubsetOut → WSt → CM (Node × WSt))
+    (hrun : ∀ o w owner, Fin o → R o a s w → w.next < o.descs.length → lookupLink o.links w.next = some owner →
+      owner ∈ w.reg → (∃ p id, owner < p ∧ p < w.next ∧ C07.IsBitmapOp id ∧ o.descs[p]? = some (.oper id)) →
+      run o w = .ok (.value k w.next (ownf w),
+        { g w with next := w.next + 1, reg := w.next :: w.reg, tab := (owner, .value k w.next (ownf w)) :: w.tab }) ∧
+      OwnOK owner w.next (ownf w) ∧ Good1 o (.value k w.next (ownf w))) :
+    Sim2 a a' Good1 s s' run := by
+  refine ⟨⟨it.inv hi hA hsk hqa, it.ext hi⟩, fun o w hf hr hb => ?_⟩
+  obtain ⟨hlt, hlab⟩ := item_pos it hr hb
+  obtain ⟨q, hq⟩ := List.exists_mem_of_ne_nil ll hne
+  have hq' : q ∈ s'.links := by rw [it.links]; exact List.mem_append_left _ hq
+  obtain ⟨owner, hlook, holt, hreg, hop⟩ := attr_lookup hf hr hb hq' (by rw [it.keys q hq, hr.next])
+  obtain ⟨erun, hown, hgood⟩ := hrun o w owner hf hr hlt hlook hreg hop
+  have fl := hg w
+  obtain ⟨q1, q2, q3⟩ := hfl w hr.wq hr.w1 hr.wD
+  refine ⟨_, _, erun, ?_, hgood⟩
+  exact hr.attr (by rw [it.descs]; rfl) it.links it.keys hlook holt hown rfl fl.dnp fl.assoc rfl rfl q1 q2 q3
+    (by show MeanOK o a'.h1 (g w).firstMeaning (w.next + 1); rw [fl.fm]; exact (hr.m1.push hlab hnop).congr ha1)
+    (by show MeanOK o a'.hD (g w).diffMeaning (w.next + 1); rw [fl.dm]; exact (hr.mD.push hlab hnop).congr haD)
+
+/-- the coder changes registers only, the pass yields a node without value -/
+theorem sim_noval {a a' : Abs} {s s' : St} (hi : Inv2 a s)
+    (hd : s'.descs = s.descs) (hv : s'.vals = s.vals) (hl : s'.links = s.links)
+    (h1 : s'.regs.assocStack = s.regs.assocStack) (h2 : s'.regs.nbitsNewRefval = s.regs.nbitsNewRefval)
+    (h3 : s'.regs.dnpCount = s.regs.dnpCount)
+    (hsk : decide (s'.regs.nbitsSkipped ≠ 0) = a'.skip) (hqa : QaIn a' s'.regs.qa)
+    (ha1 : a'.h1 = a.h1) (haD : a'.hD = a.hD) (g : WSt → WSt) (hg : ∀ w, Flags w (g w))
+    (hfl : ∀ w, w.waitQa = a.w → w.wait1st = a.w1 → w.waitDiff = a.wD →
+      (g w).waitQa = a'.w ∧ (g w).wait1st = a'.w1 ∧ (g w).waitDiff = a'.wD) (id : Nat) :
+    Sim2 a a' Good1 s s' (fun _ w => .ok (.noval id, g w)) := by
+  obtain ⟨l, hl0, hn⟩ := hi.vals
+  refine ⟨⟨⟨h1.trans hi.assoc, h2.trans hi.nref, h3.trans hi.dnp, by rw [hv, hd]; exact hi.vals,
+    by rw [hv, hd]; exact hi.al, by rw [hd]; exact hi.noA, hsk, hqa⟩,
+    ⟨⟨[], [], l, hl0, by rw [hv]; simpa using hl0, by rw [hd]; rfl⟩, [], by rw [hl]; rfl⟩⟩, fun o w hf hr hb => ?_⟩
+  have fl := hg w
+  obtain ⟨q1, q2, q3⟩ := hfl w hr.wq hr.w1 hr.wD
+  refine ⟨_, _, rfl, ?_, good_noval o id⟩
+  exact hr.stay hd hl fl.next fl.dnp fl.assoc fl.reg fl.tab q1 q2 q3
+    (by rw [fl.fm, fl.next]; exact hr.m1.congr ha1) (by rw [fl.dm, fl.next]; exact hr.mD.congr haD)
+
+theorem Sim2.congrR {α : Type} {a a' : Abs} {g : SubsetOut → α → Prop} {s s' : St}
+    {run run' : SubsetOut → WSt → CM (α × WSt)} (he : ∀ o w, R o a s w → run o w = run' o w)
+    (h : Sim2 a a' g s s' run') : Sim2 a a' g s s' run :=
+  ⟨h.1, fun o w hf hr hb => by rw [he o w hr]; exact h.2 o w hf hr hb⟩
+
+theorem Item.post' {dd : DDesc} {ll : List (Nat × Nat)} {s s1 s' : St} (h : Item dd ll s s1)
+    (hd : s'.descs = s1.descs) (hv : s'.vals = s1.vals) (hl : s'.links = s1.links)
+    (h1 : s'.regs.assocStack = s1.regs.assocStack) (h2 : s'.regs.nbitsNewRefval = s1.regs.nbitsNewRefval)
+    (h3 : s'.regs.dnpCount = s1.regs.dnpCount) : Item dd ll s s' :=
+  ⟨by rw [hd, h.descs], by rw [hv]; exact h.vals, by rw [hv, hd]; exact h.al,
+    by rw [hl, h.links], h.keys, h1.trans h.assoc, h2.trans h.nref, h3.trans h.dnp⟩
+
+theorem Item.pre' {dd : DDesc} {ll : List (Nat × Nat)} {s s0 s' : St} (h : Item dd ll s0 s')
+    (hd : s0.descs = s.descs) (hv : s0.vals = s.vals) (hl : s0.links = s.links)
+    (h1 : s0.regs.assocStack = s.regs.assocStack) (h2 : s0.regs.nbitsNewRefval = s.regs.nbitsNewRefval)
+    (h3 : s0.regs.dnpCount = s.regs.dnpCount) : Item dd ll s s' :=
+  ⟨by rw [h.descs, hd], by rw [← hv]; exact h.vals, by rw [← hv, ← hd]; exact h.al,
+    by rw [h.links, hl], by rw [← hd]; exact h.keys, h.assoc.trans h1, h.nref.trans h2, h.dnp.trans h3⟩
+
+theorem nonop_plain (e : Elem) : NonOp (.plain e) := fun _ h => by cases h
+theorem nonop_skipped (id n : Nat) : NonOp (.skipped id n) := fun _ h => by cases h
+theorem nonop_marker (id : Nat) (e : Elem) : NonOp (.marker id e) := fun _ h => by cases h
+theorem nonop_oper {id : Nat} (h : ¬ C07.IsBitmapOp id) : NonOp (.oper id) := fun id' e => by
+  injection e with e; subst e; exact h
+
+theorem qaIn_skip {a : Abs} {q : QaStatus} (b : Bool) (h : QaIn a q) : QaIn { a with skip := b } q := by
+  cases q <;> exact h
+
+theorem meaning_x33 {a : Abs} {id : Nat} (h : xOf id = 33) : a.meaning id = a := by
+  obtain ⟨h1, h2⟩ := x33_not_meaning h
+  unfold Abs.meaning
+  rw [if_neg (fun c => h1 c.1), if_neg (fun c => h2 c.1)]
+
+theorem meaning_fields (a : Abs) (id : Nat) :
+    (a.meaning id).w = a.w ∧ (a.meaning id).skip = a.skip ∧ (a.meaning id).qN = a.qN ∧ (a.meaning id).qW = a.qW ∧
+      (a.meaning id).qP = a.qP := by
+  unfold Abs.meaning
+  split
+  · exact ⟨rfl, rfl, rfl, rfl, rfl⟩
+  · split <;> exact ⟨rfl, rfl, rfl, rfl, rfl⟩
+
+theorem wireMarker_eval {o : SubsetOut} {k : VKind} {w : WSt} {owner : Nat} (hlt : w.next < o.descs.length)
+    (hl : lookupLink o.links w.next = some owner) (hr : owner ∈ w.reg) :
+    wireMarker o k w = .ok (.value k w.next [],
+      { w with next := w.next + 1, reg := w.next :: w.reg, tab := (owner, .value k w.next []) :: w.tab }) := by
+  unfold wireMarker
+  rw [take_eval hlt]
+  simp only
+  rw [bitmapAttr_eval hl (by simp [WSt.register, hr])]
+  rfl
+
+theorem wireStatsMarker_eval {o : SubsetOut} {k : VKind} {w : WSt} {owner m : Nat} (hlt : w.next < o.descs.length)
+    (hl : lookupLink o.links w.next = some owner) (hr : owner ∈ w.reg) :
+    wireStatsMarker o k (some m) w = .ok (.value k w.next [.value .value m []],
+      { w with next := w.next + 1, reg := w.next :: w.reg,
+               tab := (owner, .value k w.next [.value .value m []]) :: w.tab }) := by
+  unfold wireStatsMarker
+  rw [take_eval hlt]
+  simp only
+  rw [bitmapAttr_eval hl (by simp [WSt.register, hr])]
+  rfl
+
+theorem wireElement_quality {o : SubsetOut} {id : Nat} {w : WSt} (ha : w.assoc = []) (hx : xOf id = 33)
+    (hw : w.waitQa = true) : wireElement o id w = wireMarker o .quality w := by
+  unfold wireElement wireMarker
+  rw [if_neg (fun c => c.1 ha), if_pos ⟨hx, hw⟩]
+
+/-- an element that is not skipped: `process_element_descriptor` against `wire_element_descriptor` -/
+theorem elem_sim2 {P : Prims} (hP : PushOne P) {a a' : Abs} {e : Elem} {s s' : St} (hi : Inv2 a s)
+    (hsk : a.skip = false) (ha : a.elem e.id = some a') (h : elementDescriptor P (.plain e) e s = .ok s') :
+    Sim2 a a' Good1 s s' (fun o w => wireElement o e.id w) := by
+  obtain ⟨s1, ll, qd, hp⟩ := elementDescriptor_links hP hi.assoc h
+  have it := Item.of_qa qd hp
+  have hskip : s'.regs.nbitsSkipped = s.regs.nbitsSkipped := hp.skipped.trans qd.skipped
+  have hqq : qaStep (xOf e.id) s.regs.qa s'.regs.qa := by rw [hp.qa]; exact qd.qa
+  unfold Abs.elem at ha
+  rw [hsk] at ha
+  simp only [Bool.false_eq_true, if_false] at ha
+  by_cases hx : xOf e.id = 33
+  · rw [if_pos hx] at ha
+    rw [hx] at hqq
+    obtain ⟨hq', hw, ew, ew1, ewD, eh1, ehD, esk⟩ := qaIn_c33 ha hi.qa hqq
+    have hsk' : decide (s'.regs.nbitsSkipped ≠ 0) = a'.skip := by rw [hskip, esk]; exact hi.skip
+    by_cases haw : a.w = true
+    · have hne : ll ≠ [] := fun c => (qd.nil.mp c) ⟨hx, hw.mp haw⟩
+      refine sim_attr hi it hne rfl (nonop_plain e) hsk' hq' eh1 ehD .quality id (fun w => Flags.rfl' w)
+        (fun w q1 q2 q3 => ⟨by rw [ew]; exact q1, by rw [ew1]; exact q2, by rw [ewD]; exact q3⟩)
+        (fun _ => []) _ (fun o w owner _ hr hlt hlook hreg _ => ?_)
+      refine ⟨?_, Or.inl rfl, good_plain hlt⟩
+      rw [wireElement_quality hr.assoc hx (by rw [hr.wq]; exact haw), wireMarker_eval hlt hlook hreg]
+      rfl
+    · have hll : ll = [] := qd.nil.mpr (fun c => c.2 (Decidable.byContradiction fun hc => haw (hw.mpr hc)))
+      subst hll
+      exact sim_elem_plain hi it rfl (nonop_plain e) hsk' hq' ⟨ew, ew1, ewD, eh1, ehD⟩ (meaning_x33 hx).symm
+        (fun c => haw c.2)
+  · rw [if_neg hx] at ha
+    injection ha with ha
+    have hll : ll = [] := qd.nil.mpr (fun c => hx c.1)
+    subst hll
+    obtain ⟨m1, m2, _⟩ := meaning_fields a.non33 e.id
+    refine sim_elem_plain (a0 := a.non33) hi it rfl (nonop_plain e) ?_ ?_ ⟨rfl, rfl, rfl, rfl, rfl⟩ ha.symm (fun c => hx c.1)
+    · rw [hskip, ← ha, m2]; exact hi.skip
+    · rw [← ha]; exact qaIn_meaning (qaIn_non33 hx hi.qa hqq)
+
+/-- 206YYY pending: the coder reads ONE skipped field, whatever the member is -/
+theorem skip_item {P : Prims} (hP : PushOne P) {d : Desc} {s s' : St}
+    (h : (do let s' ← P.codeflag (.skipped d.id s.regs.nbitsSkipped) s.regs.nbitsSkipped s
+             pure (s'.setRegs fun r => { r with nbitsSkipped := 0 }) : CM St) = .ok s') :
+    Item (.skipped d.id s.regs.nbitsSkipped) [] s s' ∧ s'.regs.nbitsSkipped = 0 ∧ s'.regs.qa = s.regs.qa := by
+  simp only [bind, Except.bind, pure, Except.pure] at h
+  split at h
+  · cases h
+  · next s1 h1 =>
+    injection h with h
+    subst h
+    have hp := hP.codeflag _ _ _ _ h1
+    exact ⟨(Item.of_pushed hp).post' rfl rfl rfl rfl rfl rfl, rfl, hp.qa⟩
+
+/-! ### operators -/
+
+def BmCode (id : Nat) : Prop :=
+  id / 1000 = 222 ∨ id / 1000 = 223 ∨ id / 1000 = 224 ∨ id / 1000 = 225 ∨ id / 1000 = 232
+
+theorem not_bmop_code {id : Nat} (h : ¬ BmCode id) : ¬ C07.IsBitmapOp id := by
+  unfold BmCode at h
+  unfold C07.IsBitmapOp
+  omega
+
+/-- 22X000 / 232000: registers, then ONE constant item; 222000 arms the QA machine -/
+theorem bmop_item {P : Prims} (hP : PushOne P) {id : Nat} {s s' : St} (hc : BmCode id) (hy : id % 1000 = 0)
+    (h : operatorDescriptor P id s = .ok s') :
+    Item (.oper id) [] s s' ∧ s'.regs.nbitsSkipped = s.regs.nbitsSkipped ∧
+      s'.regs.qa = (if id / 1000 = 222 then .waiting else s.regs.qa) := by
+  unfold BmCode at hc
+  unfold operatorDescriptor at h
+  have n1 : ¬ id / 1000 = 201 := by omega
+  have n2 : ¬ id / 1000 = 202 := by omega
+  have n3 : ¬ id / 1000 = 203 := by omega
+  have n4 : ¬ id / 1000 = 204 := by omega
+  have n5 : ¬ id / 1000 = 205 := by omega
+  have n6 : ¬ id / 1000 = 206 := by omega
+  have n7 : ¬ id / 1000 = 207 := by omega
+  have n8 : ¬ id / 1000 = 208 := by omega
+  have n9 : ¬ id / 1000 = 221 := by omega
+  simp only [n1, n2, n3, n4, n5, n6, n7, n8, n9, if_false, if_pos hc, hy, if_true, bind, Except.bind, pure,
+    Except.pure] at h
+  split at h
+  · cases h
+  · next s2 h2 =>
+    injection h with h
+    have hp := hP.constant _ _ _ _ h2
+    have it : Item (.oper id) [] s s2 := (Item.of_pushed hp).pre' rfl rfl rfl rfl rfl rfl
+    by_cases c : id / 1000 = 222
+    · rw [if_pos c] at h ⊢
+      subst h
+      exact ⟨it.post' rfl rfl rfl rfl rfl rfl, hp.skipped, rfl⟩
+    · rw [if_neg c] at h ⊢
+      subst h
+      exact ⟨it, hp.skipped, hp.qa⟩
+
+/-- 22X255 / 232255 without associated field: the next selected back reference is linked, then the marker item -/
+theorem marker_item {P : Prims} (hP : PushOne P) {id : Nat} {s s' : St} (ha : s.regs.assocStack = [])
+    (hc : BmCode id) (hy : id % 1000 ≠ 0) (h : operatorDescriptor P id s = .ok s') :
+    ∃ e' ll x, Item (.marker id e') ll s s' ∧ ll ≠ [] ∧ s'.regs.nbitsSkipped = s.regs.nbitsSkipped ∧
+      qaStep x s.regs.qa s'.regs.qa := by
+  unfold BmCode at hc
+  unfold operatorDescriptor at h
+  have n1 : ¬ id / 1000 = 201 := by omega
+  have n2 : ¬ id / 1000 = 202 := by omega
+  have n3 : ¬ id / 1000 = 203 := by omega
+  have n4 : ¬ id / 1000 = 204 := by omega
+  have n5 : ¬ id / 1000 = 205 := by omega
+  have n6 : ¬ id / 1000 = 206 := by omega
+  have n7 : ¬ id / 1000 = 207 := by omega
+  have n8 : ¬ id / 1000 = 208 := by omega
+  have n9 : ¬ id / 1000 = 221 := by omega
+  have na : ¬ s.regs.assocStack ≠ [] := fun c => c ha
+  simp only [n1, n2, n3, n4, n5, n6, n7, n8, n9, if_false, if_pos hc, if_neg hy, if_neg na, bind, Except.bind, pure,
+    Except.pure] at h
+  unfold bitmappedDescriptor at h
+  simp only [bind, Except.bind] at h
+  split at h
+  · cases h
+  · next x hn =>
+    obtain ⟨⟨owner, be⟩, s1⟩ := x
+    obtain ⟨v, q⟩ := nextBitmapped_vis hn
+    simp only at h
+    have ha2 : (addLink s1 owner).regs.assocStack = [] := v.assoc.trans ha
+    have key : ∀ (e' : Elem), elementDescriptor P (.marker id e') e' (addLink s1 owner) = .ok s' →
+        ∃ e' ll x, Item (.marker id e') ll s s' ∧ ll ≠ [] ∧ s'.regs.nbitsSkipped = s.regs.nbitsSkipped ∧
+          qaStep x s.regs.qa s'.regs.qa := by
+      intro e' h
+      obtain ⟨s3, ll, qd, hp⟩ := elementDescriptor_links hP ha2 h
+      refine ⟨e', ll ++ [(s.descs.length, owner)], xOf e'.id, ?_, by simp,
+        hp.skipped.trans (qd.skipped.trans v.skipped), ?_⟩
+      · have it := Item.of_qa qd hp
+        refine ⟨by rw [it.descs]; show _ :: s1.descs = _; rw [v.descs], ?_, ?_, ?_, ?_, it.assoc.trans v.assoc,
+          it.nref.trans v.nref, it.dnp.trans v.dnp⟩
+        · have := it.vals
+          rw [← v.vals]
+          exact this
+        · have := it.al
+          rw [← v.vals, ← v.descs]
+          exact this
+        · rw [it.links]
+          show ll ++ (s1.descs.length, owner) :: s1.links = _
+          rw [v.descs, v.links, List.append_assoc]
+          rfl
+        · intro q hq
+          rcases List.mem_append.mp hq with hq | hq
+          · have := it.keys q hq
+            rw [this]
+            show s1.descs.length = _
+            rw [v.descs]
+          · rw [List.mem_singleton] at hq
+            rw [hq]
+      · have := qd.qa
+        rw [hp.qa]
+        have e : (addLink s1 owner).regs.qa = s.regs.qa := q
+        rw [e] at this
+        exact this
+    exact key _ h
+
+theorem wop_noval {o : SubsetOut} {id : Nat} {w : WSt}
+    (h : id / 1000 = 201 ∨ id / 1000 = 202 ∨ id / 1000 = 203 ∨ id / 1000 = 206 ∨ id / 1000 = 207 ∨ id / 1000 = 208) :
+    wireOperator o id w = .ok (.noval id, w) := by
+  unfold wireOperator wireOperatorCY
+  rw [if_pos h]
+
+theorem wop_plain {o : SubsetOut} {id : Nat} {w : WSt}
+    (h : id / 1000 = 205 ∨ id / 1000 = 236 ∨ id / 1000 = 237) : wireOperator o id w = w.plainValue o := by
+  unfold wireOperator wireOperatorCY
+  rcases h with h | h | h <;> simp [h]
+
+theorem wop_235 {o : SubsetOut} {id : Nat} {w : WSt} (h : id / 1000 = 235) :
+    wireOperator o id w = .ok (.noval id, { w with waitQa := false }) := by
+  unfold wireOperator wireOperatorCY
+  simp [h]
+
+theorem wop_222 {o : SubsetOut} {id : Nat} {w : WSt} (h : id / 1000 = 222) :
+    wireOperator o id w = ({ w with waitQa := true } : WSt).plainValue o := by
+  unfold wireOperator wireOperatorCY
+  simp [h]
+
+theorem wop_223 {o : SubsetOut} {id : Nat} {w : WSt} (h : id / 1000 = 223 ∨ id / 1000 = 232) :
+    wireOperator o id w = (if id % 1000 = 0 then ({ w with waitQa := false } : WSt).plainValue o
+      else wireMarker o (if id / 1000 = 223 then .substitution else .replacement) { w with waitQa := false }) := by
+  unfold wireOperator wireOperatorCY
+  rcases h with h | h <;> simp [h]
+
+theorem wop_224 {o : SubsetOut} {id : Nat} {w : WSt} (h : id / 1000 = 224) :
+    wireOperator o id w = (if id % 1000 = 0 then ({ w with waitQa := false, wait1st := true } : WSt).plainValue o
+      else wireStatsMarker o .firstOrder w.firstMeaning { w with waitQa := false }) := by
+  unfold wireOperator wireOperatorCY
+  simp [h]
+
+theorem wop_225 {o : SubsetOut} {id : Nat} {w : WSt} (h : id / 1000 = 225) :
+    wireOperator o id w = (if id % 1000 = 0 then ({ w with waitQa := false, waitDiff := true } : WSt).plainValue o
+      else wireStatsMarker o .difference w.diffMeaning { w with waitQa := false }) := by
+  unfold wireOperator wireOperatorCY
+  simp [h]
+
+theorem sim_op_plain {a : Abs} {s s' : St} {id : Nat} (hi : Inv2 a s) (it : Item (.oper id) [] s s')
+    (hs : s'.regs.nbitsSkipped = s.regs.nbitsSkipped) (hq : s'.regs.qa = s.regs.qa) (hnb : ¬ BmCode id) :
+    Sim2 a a Good1 s s' (fun o w => w.plainValue o) :=
+  sim_plain hi it rfl (by rw [hs]; exact hi.skip) (by rw [hq]; exact hi.qa) (fun w => w) Flags.rfl'
+    (fun _ q1 q2 q3 => ⟨q1, q2, q3⟩) (Or.inl ⟨nonop_oper (not_bmop_code hnb), rfl, rfl⟩)
+
+/-- the stats marker of the wiring pass: its meaning node lies behind the owner -/
+theorem stats_hrun {o : SubsetOut} {w : WSt} {owner : Nat} {k : VKind} {fm : Option Nat} (hf : Fin o)
+    (hm : MeanOK o true fm w.next) (hlt : w.next < o.descs.length)
+    (hlook : lookupLink o.links w.next = some owner) (hreg : owner ∈ w.reg)
+    (hop : ∃ p id, owner < p ∧ p < w.next ∧ C07.IsBitmapOp id ∧ o.descs[p]? = some (.oper id)) :
+    ∃ m, fm = some m ∧
+      wireStatsMarker o k (some m) { w with waitQa := false } = .ok (.value k w.next [.value .value m []],
+        { w with waitQa := false, next := w.next + 1, reg := w.next :: w.reg,
+                 tab := (owner, .value k w.next [.value .value m []]) :: w.tab }) ∧
+      OwnOK owner w.next [.value .value m []] ∧ Good1 o (.value k w.next [.value .value m []]) := by
+  obtain ⟨m, e, hmlt, hno⟩ := hm rfl
+  obtain ⟨p, id, h1, h2, h3, h4⟩ := hop
+  have hpm : p < m := by
+    apply Decidable.byContradiction
+    intro c
+    exact hno p id (by omega) h2 h4 h3
+  refine ⟨m, e, ?_, Or.inr ⟨m, rfl, by omega, hmlt⟩, ?_, ?_⟩
+  · exact wireStatsMarker_eval (w := { w with waitQa := false }) hlt hlook hreg
+  · have hml : m < o.descs.length := by omega
+    have hd : o.descs[m]? = some o.descs[m] := List.getElem?_eq_getElem hml
+    have hA := hf.2 _ (List.getElem_mem hml)
+    rw [treeOK1]
+    simp [ownAttrOK, hd, hA, VKind.isAssoc]
+  · simp [shape1, valShape, ownShape, hlt, hmlt]
+
+set_option maxHeartbeats 400000 in
+/-- an operator: `process_operator_descriptor` against `wire_operator_descriptor` -/
+theorem op_sim2 {P : Prims} (hP : PushOne P) {a a' : Abs} {id : Nat} {s s' : St} (hi : Inv2 a s)
+    (hsk : a.skip = false) (ha : a.op id = some a') (h : operatorDescriptor P id s = .ok s') :
+    Sim2 a a' Good1 s s' (fun o w => wireOperator o id w) := by
+  unfold Abs.op at ha
+  simp only at ha
+  by_cases c1 : id / 1000 = 201 ∨ id / 1000 = 202 ∨ id / 1000 = 207 ∨ id / 1000 = 208 ∨ id / 1000 = 205 ∨
+      id / 1000 = 236 ∨ id / 1000 = 237
+  · rw [if_pos c1] at ha
+    injection ha with ha
+    subst ha
+    have hnb : ¬ BmCode id := by unfold BmCode; omega
+    unfold operatorDescriptor at h
+    rcases c1 with hc | hc | hc | hc | hc | hc | hc <;>
+      simp only [hc, Nat.reduceEqDiff, true_or, or_true, or_false, false_or, if_true, if_false] at h
+    · injection h with h; subst h
+      refine Sim2.congrR (fun o w _ => wop_noval (Or.inl hc)) ?_
+      refine sim_noval hi ?_ ?_ ?_ ?_ ?_ ?_ ?_ ?_ ?_ ?_ (fun w => w) Flags.rfl' (fun _ q1 q2 q3 => ⟨q1, q2, q3⟩) id <;>
+        first | rfl | exact hi.skip | exact hi.qa
+    · injection h with h; subst h
+      refine Sim2.congrR (fun o w _ => wop_noval (Or.inr (Or.inl hc))) ?_
+      refine sim_noval hi ?_ ?_ ?_ ?_ ?_ ?_ ?_ ?_ ?_ ?_ (fun w => w) Flags.rfl' (fun _ q1 q2 q3 => ⟨q1, q2, q3⟩) id <;>
+        first | rfl | exact hi.skip | exact hi.qa
+    · injection h with h; subst h
+      refine Sim2.congrR (fun o w _ => wop_noval (by omega)) ?_
+      refine sim_noval hi ?_ ?_ ?_ ?_ ?_ ?_ ?_ ?_ ?_ ?_ (fun w => w) Flags.rfl' (fun _ q1 q2 q3 => ⟨q1, q2, q3⟩) id <;>
+        first | rfl | exact hi.skip | exact hi.qa
+    · injection h with h; subst h
+      refine Sim2.congrR (fun o w _ => wop_noval (by omega)) ?_
+      refine sim_noval hi ?_ ?_ ?_ ?_ ?_ ?_ ?_ ?_ ?_ ?_ (fun w => w) Flags.rfl' (fun _ q1 q2 q3 => ⟨q1, q2, q3⟩) id <;>
+        first | rfl | exact hi.skip | exact hi.qa
+    · have hp := hP.string _ _ _ _ h
+      exact Sim2.congrR (fun o w _ => wop_plain (Or.inl hc))
+        (sim_op_plain hi (Item.of_pushed hp) hp.skipped hp.qa hnb)
+    · have hp := hP.constant _ _ _ _ h
+      exact Sim2.congrR (fun o w _ => wop_plain (Or.inr (Or.inl hc)))
+        (sim_op_plain hi (Item.of_pushed hp) hp.skipped hp.qa hnb)
+    · refine Sim2.congrR (fun o w _ => wop_plain (Or.inr (Or.inr hc))) ?_
+      split at h
+      · split at h
+        · cases h
+        · have hp := hP.constant _ _ _ _ h
+          exact sim_op_plain hi ((Item.of_pushed hp).pre' rfl rfl rfl rfl rfl rfl) hp.skipped hp.qa hnb
+      · have hp := hP.constant _ _ _ _ h
+        exact sim_op_plain hi (Item.of_pushed hp) hp.skipped hp.qa hnb
+  · rw [if_neg c1] at ha
+    by_cases c2 : id / 1000 = 206
+    · rw [if_pos c2] at ha
+      injection ha with ha
+      subst ha
+      unfold operatorDescriptor at h
+      simp only [c2, Nat.reduceEqDiff, true_or, or_true, or_false, false_or, if_true, if_false] at h
+      injection h with h; subst h
+      refine Sim2.congrR (fun o w _ => wop_noval (by omega)) ?_
+      refine sim_noval (a' := { a with skip := decide (id % 1000 ≠ 0) }) hi ?_ ?_ ?_ ?_ ?_ ?_ ?_ ?_ ?_ ?_ (fun w => w)
+        Flags.rfl' (fun _ q1 q2 q3 => ⟨q1, q2, q3⟩) id <;> first | rfl | exact qaIn_skip _ hi.qa
+    · rw [if_neg c2] at ha
+      by_cases c3 : id / 1000 = 222
+      · rw [if_pos c3] at ha
+        by_cases hy : id % 1000 = 0
+        · rw [if_pos hy] at ha
+          injection ha with ha
+          subst ha
+          obtain ⟨it, hs, hq⟩ := bmop_item hP (Or.inl c3) hy h
+          refine Sim2.congrR (fun o w _ => wop_222 c3) ?_
+          exact sim_plain hi it rfl (by rw [hs]; exact hi.skip) (by rw [hq, if_pos c3]; rfl)
+            (fun w => { w with waitQa := true }) (fun _ => ⟨rfl, rfl, rfl, rfl, rfl, rfl, rfl⟩)
+            (fun _ _ q2 q3 => ⟨rfl, q2, q3⟩) (Or.inr ⟨rfl, rfl⟩)
+        · rw [if_neg hy] at ha
+          cases ha
+      · rw [if_neg c3] at ha
+        by_cases c4 : id / 1000 = 223 ∨ id / 1000 = 232
+        · rw [if_pos c4] at ha
+          have hbm : BmCode id := by unfold BmCode; omega
+          by_cases hy : id % 1000 = 0
+          · rw [if_pos hy] at ha
+            injection ha with ha
+            subst ha
+            obtain ⟨it, hs, hq⟩ := bmop_item hP hbm hy h
+            refine Sim2.congrR (fun o w _ => by rw [wop_223 c4, if_pos hy]) ?_
+            exact sim_plain hi it rfl (by rw [hs]; exact hi.skip) (by rw [hq, if_neg c3]; exact hi.qa)
+              (fun w => { w with waitQa := false }) (fun _ => ⟨rfl, rfl, rfl, rfl, rfl, rfl, rfl⟩)
+              (fun _ _ q2 q3 => ⟨rfl, q2, q3⟩) (Or.inr ⟨rfl, rfl⟩)
+          · rw [if_neg hy] at ha
+            injection ha with ha
+            subst ha
+            obtain ⟨e', ll, x, it, hne, hs, hq⟩ := marker_item hP hi.assoc hbm hy h
+            refine Sim2.congrR (fun o w _ => by rw [wop_223 c4, if_neg hy]) ?_
+            refine sim_attr hi it hne rfl (nonop_marker _ _) (by rw [hs]; exact hi.skip) (qaIn_marker hi.qa hq) rfl rfl
+              (if id / 1000 = 223 then .substitution else .replacement) (fun w => { w with waitQa := false })
+              (fun _ => ⟨rfl, rfl, rfl, rfl, rfl, rfl, rfl⟩) (fun _ _ q2 q3 => ⟨rfl, q2, q3⟩) (fun _ => []) _
+              (fun o w owner _ hr hlt hlook hreg _ => ⟨?_, Or.inl rfl, good_plain hlt⟩)
+            exact wireMarker_eval (w := { w with waitQa := false }) hlt hlook hreg
+        · rw [if_neg c4] at ha
+          by_cases c5 : id / 1000 = 224
+          · rw [if_pos c5] at ha
+            have hbm : BmCode id := by unfold BmCode; omega
+            by_cases hy : id % 1000 = 0
+            · rw [if_pos hy] at ha
+              injection ha with ha
+              subst ha
+              obtain ⟨it, hs, hq⟩ := bmop_item hP hbm hy h
+              refine Sim2.congrR (fun o w _ => by rw [wop_224 c5, if_pos hy]) ?_
+              exact sim_plain hi it rfl (by rw [hs]; exact hi.skip) (by rw [hq, if_neg c3]; exact hi.qa)
+                (fun w => { w with waitQa := false, wait1st := true })
+                (fun _ => ⟨rfl, rfl, rfl, rfl, rfl, rfl, rfl⟩) (fun _ _ _ q3 => ⟨rfl, rfl, q3⟩) (Or.inr ⟨rfl, rfl⟩)
+            · rw [if_neg hy] at ha
+              by_cases hh : a.h1 = true
+              · rw [if_pos hh] at ha
+                injection ha with ha
+                subst ha
+                obtain ⟨e', ll, x, it, hne, hs, hq⟩ := marker_item hP hi.assoc hbm hy h
+                refine Sim2.congrR (fun o w _ => by rw [wop_224 c5, if_neg hy]) ?_
+                refine sim_attr hi it hne rfl (nonop_marker _ _) (by rw [hs]; exact hi.skip) (qaIn_marker hi.qa hq)
+                  rfl rfl .firstOrder (fun w => { w with waitQa := false })
+                  (fun _ => ⟨rfl, rfl, rfl, rfl, rfl, rfl, rfl⟩) (fun _ _ q2 q3 => ⟨rfl, q2, q3⟩)
+                  (fun w => match w.firstMeaning with | some m => [.value .value m []] | none => []) _
+                  (fun o w owner hf hr hlt hlook hreg hop => ?_)
+                have hm := hr.m1
+                rw [hh] at hm
+                obtain ⟨m, e, r1, r2, r3⟩ := stats_hrun (k := .firstOrder) hf hm hlt hlook hreg hop
+                simp only [e] at r1 ⊢
+                exact ⟨r1, r2, r3⟩
+              · rw [if_neg hh] at ha
+                cases ha
+          · rw [if_neg c5] at ha
+            by_cases c6 : id / 1000 = 225
+            · rw [if_pos c6] at ha
+              have hbm : BmCode id := by unfold BmCode; omega
+              by_cases hy : id % 1000 = 0
+              · rw [if_pos hy] at ha
+                injection ha with ha
+                subst ha
+                obtain ⟨it, hs, hq⟩ := bmop_item hP hbm hy h
+                refine Sim2.congrR (fun o w _ => by rw [wop_225 c6, if_pos hy]) ?_
+                exact sim_plain hi it rfl (by rw [hs]; exact hi.skip) (by rw [hq, if_neg c3]; exact hi.qa)
+                  (fun w => { w with waitQa := false, waitDiff := true })
+                  (fun _ => ⟨rfl, rfl, rfl, rfl, rfl, rfl, rfl⟩) (fun _ _ q2 _ => ⟨rfl, q2, rfl⟩) (Or.inr ⟨rfl, rfl⟩)
+              · rw [if_neg hy] at ha
+                by_cases hh : a.hD = true
+                · rw [if_pos hh] at ha
+                  injection ha with ha
+                  subst ha
+                  obtain ⟨e', ll, x, it, hne, hs, hq⟩ := marker_item hP hi.assoc hbm hy h
+                  refine Sim2.congrR (fun o w _ => by rw [wop_225 c6, if_neg hy]) ?_
+                  refine sim_attr hi it hne rfl (nonop_marker _ _) (by rw [hs]; exact hi.skip) (qaIn_marker hi.qa hq)
+                    rfl rfl .difference (fun w => { w with waitQa := false })
+                    (fun _ => ⟨rfl, rfl, rfl, rfl, rfl, rfl, rfl⟩) (fun _ _ q2 q3 => ⟨rfl, q2, q3⟩)
+                    (fun w => match w.diffMeaning with | some m => [.value .value m []] | none => []) _
+                    (fun o w owner hf hr hlt hlook hreg hop => ?_)
+                  have hm := hr.mD
+                  rw [hh] at hm
+                  obtain ⟨m, e, r1, r2, r3⟩ := stats_hrun (k := .difference) hf hm hlt hlook hreg hop
+                  simp only [e] at r1 ⊢
+                  exact ⟨r1, r2, r3⟩
+                · rw [if_neg hh] at ha
+                  cases ha
+            · rw [if_neg c6] at ha
+              by_cases c7 : id / 1000 = 235
+              · rw [if_pos c7] at ha
+                injection ha with ha
+                subst ha
+                unfold operatorDescriptor at h
+                have nb : ¬ (id / 1000 = 222 ∨ id / 1000 = 223 ∨ id / 1000 = 224 ∨ id / 1000 = 225 ∨ id / 1000 = 232) := by
+                  omega
+                simp only [c7, Nat.reduceEqDiff, true_or, or_true, or_false, false_or, if_true, if_false] at h
+                injection h with h; subst h
+                refine Sim2.congrR (fun o w _ => wop_235 c7) ?_
+                refine sim_noval (a' := { a with w := false }) hi ?_ ?_ ?_ ?_ ?_ ?_ ?_ ?_ ?_ ?_
+                  (fun w => { w with waitQa := false }) (fun _ => ⟨rfl, rfl, rfl, rfl, rfl, rfl, rfl⟩)
+                  (fun _ _ q2 q3 => ⟨rfl, q2, q3⟩) id <;> first | rfl | exact hi.skip | exact hi.qa
+              · rw [if_neg c7] at ha
+                cases ha
+
+/-! ### composition -/
+
+theorem Sim2.refl {α : Type} {a : Abs} {s : St} (hi : Inv2 a s) {g : SubsetOut → α → Prop}
+    {run : SubsetOut → WSt → CM (α × WSt)} (x : α) (h : ∀ o w, run o w = .ok (x, w)) (hg : ∀ o, g o x) :
+    Sim2 a a g s s run :=
+  ⟨⟨hi, hi.ext_refl⟩, fun o w _ hr _ => ⟨x, w, h o w, hr, hg o⟩⟩
+
+theorem Sim2.map {α β : Type} {a a' : Abs} {g : SubsetOut → α → Prop} {g2 : SubsetOut → β → Prop} {s s' : St}
+    {run : SubsetOut → WSt → CM (α × WSt)} {run2 : SubsetOut → WSt → CM (β × WSt)} (h : Sim2 a a' g s s' run)
+    (hm : ∀ o w x w', R o a s w → run o w = .ok (x, w') → g o x → ∃ c, run2 o w = .ok (c, w') ∧ g2 o c) :
+    Sim2 a a' g2 s s' run2 := by
+  refine ⟨h.1, fun o w hf hr hb => ?_⟩
+  obtain ⟨x, w', e, hr', gx⟩ := h.2 o w hf hr hb
+  obtain ⟨c, e2, gc⟩ := hm o w x w' hr e gx
+  exact ⟨c, w', e2, hr', gc⟩
+
+theorem Sim2.weaken {α : Type} {a a' c : Abs} {g : SubsetOut → α → Prop} {s s' : St}
+    {run : SubsetOut → WSt → CM (α × WSt)} (h : Sim2 a a' g s s' run) (hI : Inv2 a' s' → Inv2 c s')
+    (hR : ∀ o w, R o a' s' w → R o c s' w) : Sim2 a c g s s' run := by
+  refine ⟨⟨hI h.1.1, h.1.2⟩, fun o w hf hr hb => ?_⟩
+  obtain ⟨x, w', e, hr', gx⟩ := h.2 o w hf hr hb
+  exact ⟨x, w', e, hR o w' hr', gx⟩
+
+theorem R.abs {o : SubsetOut} {a c : Abs} {s : St} {w : WSt} (h : R o a s w) (e1 : c.w = a.w) (e2 : c.w1 = a.w1)
+    (e3 : c.wD = a.wD) (e4 : c.h1 = a.h1) (e5 : c.hD = a.hD) : R o c s w :=
+  ⟨h.next, h.dnp, h.assoc, by rw [e1]; exact h.wq, by rw [e2]; exact h.w1, by rw [e3]; exact h.wD,
+    h.m1.congr e4, h.mD.congr e5, h.reg, h.tabS, h.tabC⟩
+
+theorem Inv2.abs {a c : Abs} {s : St} (h : Inv2 a s) (e : c.skip = a.skip) (hq : ∀ q, QaIn a q → QaIn c q) :
+    Inv2 c s :=
+  ⟨h.assoc, h.nref, h.dnp, h.vals, h.al, h.noA, by rw [e]; exact h.skip, hq _ h.qa⟩
+
+theorem join_facts {a b c : Abs} (h : a.join b = some c) :
+    (c.w = a.w ∧ c.w1 = a.w1 ∧ c.wD = a.wD ∧ c.h1 = a.h1 ∧ c.hD = a.hD ∧ c.skip = a.skip) ∧
+    (c.w = b.w ∧ c.w1 = b.w1 ∧ c.wD = b.wD ∧ c.h1 = b.h1 ∧ c.hD = b.hD ∧ c.skip = b.skip) ∧
+    (∀ q, QaIn a q → QaIn c q) ∧ (∀ q, QaIn b q → QaIn c q) := by
+  unfold Abs.join at h
+  split at h
+  · next hc =>
+    injection h with h
+    subst h
+    obtain ⟨h1, h2, h3, h4, h5, h6⟩ := hc
+    refine ⟨⟨rfl, rfl, rfl, rfl, rfl, rfl⟩, ⟨h1, h2, h3, h4, h5, h6⟩, ?_, ?_⟩
+    · intro q hq; cases q <;> simp_all [QaIn]
+    · intro q hq; cases q <;> simp_all [QaIn]
+  · cases h
+
+theorem iter_sim2 {a1 : Abs} {f : St → CM St} {g : SubsetOut → WSt → CM (List Node × WSt)}
+    (h11 : ∀ s s', Inv2 a1 s → f s = .ok s' → Sim2 a1 a1 GoodL s s' g) :
+    ∀ n s s', Inv2 a1 s → iterN n f s = .ok s' →
+      Sim2 a1 a1 GoodL s s' (fun o w => wireRepeat (g o) n w) := by
+  intro n
+  induction n with
+  | zero =>
+    intro s s' hi h
+    unfold iterN at h
+    injection h with h
+    subst h
+    exact Sim2.refl hi [] (fun o w => by unfold wireRepeat; rfl) (fun o => GoodL.nil o)
+  | succ n ih =>
+    intro s s' hi h
+    unfold iterN at h
+    split at h
+    · cases h
+    · next s1 h1 =>
+      have x := h11 s s1 hi h1
+      have y := ih s1 s' x.1.1 h
+      refine Sim2.seq x y (fun o w x w1 y w2 e1 e2 gx gy => ⟨x ++ y, ?_, gx.append gy⟩)
+      show wireRepeat (g o) (n + 1) w = _
+      rw [wireRepeat, e1]
+      simp only [e2]
+
+theorem iter_sim2_first {a a1 : Abs} {f : St → CM St} {g : SubsetOut → WSt → CM (List Node × WSt)}
+    (h01 : ∀ s s', Inv2 a s → f s = .ok s' → Sim2 a a1 GoodL s s' g)
+    (h11 : ∀ s s', Inv2 a1 s → f s = .ok s' → Sim2 a1 a1 GoodL s s' g) :
+    ∀ n s s', Inv2 a s → iterN (n + 1) f s = .ok s' →
+      Sim2 a a1 GoodL s s' (fun o w => wireRepeat (g o) (n + 1) w) := by
+  intro n s s' hi h
+  unfold iterN at h
+  split at h
+  · cases h
+  · next s1 h1 =>
+    have x := h01 s s1 hi h1
+    have y := iter_sim2 h11 n s1 s' x.1.1 h
+    refine Sim2.seq x y (fun o w x w1 y w2 e1 e2 gx gy => ⟨x ++ y, ?_, gx.append gy⟩)
+    show wireRepeat (g o) (n + 1) w = _
+    rw [wireRepeat, e1]
+    simp only [e2]
+
+/-- the replication count the wiring pass reads from the final value list is the one the coder used -/
+theorem count_sim2 {P : Prims} (hP : PushOne P) {o : SubsetOut} {a : Abs} {dd : DDesc} {ll : List (Nat × Nat)}
+    {s s1 : St} {n : Nat} {w : WSt} (hi : Inv2 a s) (it : Item dd ll s s1) (hr : R o a s w) (hb : Below o s1)
+    (hn : (P.factorValue s1 >>= factorCount) = .ok n) : wireCount o w.next = .ok n := by
+  obtain ⟨l, hl, hlen⟩ := hi.vals
+  obtain ⟨v0, hv0⟩ := it.vals l hl
+  obtain ⟨l', hl', hpre, _⟩ := hb
+  rw [hv0] at hl'
+  injection hl' with hl'
+  subst hl'
+  cases hfv : P.factorValue s1 with
+  | error e => rw [hfv] at hn; cases hn
+  | ok v =>
+    rw [hfv] at hn
+    have hh := hP.factor s1 v (v0 :: l) hfv hv0
+    simp only [List.head?_cons, Option.some.injEq] at hh
+    subst hh
+    obtain ⟨t, ht⟩ := hpre
+    have hget : o.vals[w.next]? = some v0 := by
+      rw [← ht, List.reverse_cons, hr.next, ← hlen, List.append_assoc]
+      rw [List.getElem?_append_right (by simp)]
+      simp
+    unfold wireCount
+    rw [hget]
+    change factorCount v0 = .ok n at hn
+    unfold factorCount at hn
+    cases v0 with
+    | missing => cases hn
+    | int i =>
+      simp only at hn ⊢
+      split at hn
+      · cases hn
+      · injection hn with hn; rw [hn]
+    | num _ _ => cases hn
+    | bytes _ => cases hn
+
+theorem wire1_elem0 {o : SubsetOut} {e : Elem} {w : WSt} (h : w.dnp = 0) :
+    wire1 o (.elem e) w = wireElement o e.id w := by
+  rw [wire1_elem, preW_zero h, if_neg (by simp [h])]
+
+theorem wire1_undef0 {o : SubsetOut} {id : Nat} {w : WSt} (h : w.dnp = 0) :
+    wire1 o (.undefElem id) w = w.plainValue o := by
+  rw [wire1]
+  simp [h, dnpSkips]
+
+/-- without a pending 206 skip the coder runs its bitmap-definition machine, then dispatches -/
+theorem noskip_pre {P : Prims} {a : Abs} {d : Desc} {s s' : St} (hi : Inv2 a s) (hsk : a.skip = false)
+    (h : walk1 P d s = .ok s') : ∃ s1, Vis s s1 ∧ s1.regs.qa = s.regs.qa ∧ disp P d s1 = .ok s' := by
+  rw [walk1_inv P d s hi.dnp hi.nref] at h
+  have h0 : ¬ s.regs.nbitsSkipped ≠ 0 := by
+    have := hi.skip
+    rw [hsk] at this
+    exact of_decide_eq_false this
+  rw [if_neg h0] at h
+  split at h
+  · cases h
+  · next s1 hb =>
+    obtain ⟨v, q⟩ := bitmapDefinition_vis hb
+    exact ⟨s1, v, q, h⟩
+
+theorem skip_pre {P : Prims} (hP : PushOne P) {a : Abs} {d : Desc} {s s' : St} (hi : Inv2 a s)
+    (hsk : a.skip = true) (h : walk1 P d s = .ok s') :
+    Item (.skipped d.id s.regs.nbitsSkipped) [] s s' ∧ s'.regs.nbitsSkipped = 0 ∧ s'.regs.qa = s.regs.qa := by
+  rw [walk1_inv P d s hi.dnp hi.nref] at h
+  have h0 : s.regs.nbitsSkipped ≠ 0 := by
+    have := hi.skip
+    rw [hsk] at this
+    exact of_decide_eq_true this
+  rw [if_pos h0] at h
+  exact skip_item hP h
+
+/-! ### the simulation -/
+
+mutual
+theorem walkList_sim2 {P : Prims} (hP : PushOne P) : ∀ (ds : List Desc) (a a' : Abs), absList ds a = some a' →
+    ∀ (s s' : St), Inv2 a s → walkList P ds s = .ok s' →
+      Sim2 a a' GoodL s s' (fun o w => wireList o ds w)
+  | [], a, a', ha, s, s', hi, h => by
+    rw [absList] at ha
+    split at ha
+    · cases ha
+    · injection ha with ha
+      subst ha
+      rw [walkList] at h
+      injection h with h
+      subst h
+      exact Sim2.refl hi [] (fun o w => by rw [wireList]) (fun o => GoodL.nil o)
+  | d :: ds, a, a', ha, s, s', hi, h => by
+    rw [absList] at ha
+    split at ha
+    · cases ha
+    · next a1 h1a =>
+      rw [walkList] at h
+      split at h
+      · cases h
+      · next s1 h1 =>
+        have x := walk1_sim2 hP d a a1 h1a s s1 hi h1
+        have y := walkList_sim2 hP ds a1 a' ha s1 s' x.1.1 h
+        refine Sim2.seq x y (fun o w x w1 y w2 e1 e2 gx gy => ⟨x :: y, ?_, GoodL.cons gx gy⟩)
+        show wireList o (d :: ds) w = _
+        rw [wireList, e1]
+        simp only [e2]
+
+theorem walk1_sim2 {P : Prims} (hP : PushOne P) : ∀ (d : Desc) (a a' : Abs), abs1 d a = some a' →
+    ∀ (s s' : St), Inv2 a s → walk1 P d s = .ok s' →
+      Sim2 a a' Good1 s s' (fun o w => wire1 o d w)
+  | .elem e, a, a', ha, s, s', hi, h => by
+    rw [abs1] at ha
+    refine Sim2.congrR (fun o w hr => wire1_elem0 hr.dnp) ?_
+    cases hsk : a.skip with
+    | false =>
+      obtain ⟨s1, v, q, h⟩ := noskip_pre hi hsk h
+      exact Sim2.pre hi v (elem_sim2 hP (hi.vis v q) hsk ha h)
+    | true =>
+      obtain ⟨it, hs0, hq⟩ := skip_pre hP hi hsk h
+      unfold Abs.elem at ha
+      rw [hsk] at ha
+      simp only [if_true] at ha
+      split at ha
+      · cases ha
+      · next hc =>
+        injection ha with ha
+        obtain ⟨_, m2, _⟩ := meaning_fields ({ a with skip := false } : Abs) e.id
+        refine sim_elem_plain (a0 := { a with skip := false }) hi it rfl (nonop_skipped _ _) ?_ ?_
+          ⟨rfl, rfl, rfl, rfl, rfl⟩ ha.symm hc
+        · rw [hs0, ← ha, m2]; rfl
+        · rw [hq, ← ha]; exact qaIn_meaning (qaIn_skip false hi.qa)
+  | .undefElem id, a, a', ha, s, s', hi, h => by
+    rw [abs1] at ha
+    injection ha with ha
+    subst ha
+    refine Sim2.congrR (fun o w hr => wire1_undef0 hr.dnp) ?_
+    cases hsk : a.skip with
+    | false =>
+      obtain ⟨s1, v, q, h⟩ := noskip_pre hi hsk h
+      unfold disp at h
+      cases h
+    | true =>
+      obtain ⟨it, hs0, hq⟩ := skip_pre hP hi hsk h
+      exact sim_plain hi it rfl (by rw [hs0]; rfl) (by rw [hq]; exact qaIn_skip false hi.qa) (fun w => w) Flags.rfl'
+        (fun _ q1 q2 q3 => ⟨q1, q2, q3⟩) (Or.inl ⟨nonop_skipped _ _, rfl, rfl⟩)
+  | .undefSeq id, a, a', ha, s, s', hi, h => by
+    rw [abs1] at ha
+    cases ha
+  | .op id, a, a', ha, s, s', hi, h => by
+    rw [abs1] at ha
+    cases hsk : a.skip with
+    | true => rw [hsk] at ha; simp only [if_true] at ha; cases ha
+    | false =>
+      rw [hsk] at ha
+      simp only [Bool.false_eq_true, if_false] at ha
+      obtain ⟨s1, v, q, h⟩ := noskip_pre hi hsk h
+      refine Sim2.congrR (fun o w hr => by rw [wire1_op, preW_zero hr.dnp]) ?_
+      exact Sim2.pre hi v (op_sim2 hP (hi.vis v q) hsk ha h)
+  | .seq id ms, a, a', ha, s, s', hi, h => by
+    rw [abs1] at ha
+    split at ha
+    · cases ha
+    · next hc =>
+      have hsk : a.skip = false := by
+        cases hs : a.skip with
+        | false => rfl
+        | true => exact absurd (Or.inl hs) hc
+      have hid : ¬ id / 100000 = 1 := fun c => hc (Or.inr c)
+      obtain ⟨s1, v, q, h⟩ := noskip_pre hi hsk h
+      have x := walkList_sim2 hP ms a a' ha s1 s' (hi.vis v q) h
+      refine Sim2.congrR (fun o w hr => by rw [wire1_seq, preW_zero hr.dnp]) ?_
+      refine Sim2.pre hi v (x.map (fun o w ns w' _ e g => ⟨.seq id ns, by simp only [e], ?_, ?_⟩))
+      · rw [treeOK1, g.1]
+        simp [hid]
+      · rw [shape1]; exact g.2
+  | .fixedRep id ms, a, a', ha, s, s', hi, h => by
+    rw [abs1] at ha
+    split at ha
+    · cases ha
+    · next hc =>
+      have hsk : a.skip = false := by
+        cases hs : a.skip with
+        | false => rfl
+        | true => exact absurd (Or.inl hs) hc
+      have hid : id / 100000 = 1 := Decidable.byContradiction fun c => hc (Or.inr c)
+      obtain ⟨s1, v, q, h⟩ := noskip_pre hi hsk h
+      have hi1 := hi.vis v q
+      split at ha
+      · cases ha
+      · next a1 h01 =>
+        split at ha
+        · next h11 =>
+          have body01 := fun s s' hi h => walkList_sim2 hP ms a a1 h01 s s' hi h
+          have body11 := fun s s' hi h => walkList_sim2 hP ms a1 a1 h11 s s' hi h
+          have x : Sim2 a a' GoodL s1 s' (fun o w => wireRepeat (wireList o ms) (yOf id) w) := by
+            simp only [disp] at h
+            cases hy : yOf id with
+            | zero =>
+              rw [hy] at h ha
+              simp only [if_true] at ha
+              injection ha with ha
+              subst ha
+              unfold iterN at h
+              injection h with h
+              subst h
+              exact Sim2.refl hi1 [] (fun o w => by unfold wireRepeat; rfl) (fun o => GoodL.nil o)
+            | succ n =>
+              rw [hy] at h ha
+              simp only [Nat.succ_ne_zero, if_false] at ha
+              injection ha with ha
+              subst ha
+              exact iter_sim2_first (g := fun o => wireList o ms) body01 body11 n s1 s' hi1 h
+          refine Sim2.congrR (fun o w hr => by rw [wire1_fixed, preW_zero hr.dnp]) ?_
+          refine Sim2.pre hi v (x.map (fun o w ns w' _ e g => ⟨.fixedRep id ms.length ns, by simp only [e], ?_, ?_⟩))
+          · rw [treeOK1, g.1, wireRepeat_length o ms (yOf id) _ _ _ e]
+            simp [hid]
+          · rw [shape1]; exact g.2
+        · cases ha
+  | .delayedRep id f ms, a, a', ha, s, s', hi, h => by
+    cases f with
+    | elem fe =>
+      rw [abs1] at ha
+      split at ha
+      · cases ha
+      · next hc =>
+        have hsk : a.skip = false := by
+          cases hs : a.skip with
+          | false => rfl
+          | true => exact absurd (Or.inl hs) hc
+        have hid : id / 100000 = 1 := Decidable.byContradiction fun c => hc (Or.inr c)
+        obtain ⟨s1, v, q, h⟩ := noskip_pre hi hsk h
+        have hi1 := hi.vis v q
+        refine Sim2.congrR (fun o w hr => by rw [wire1_delayed, preW_zero hr.dnp]) ?_
+        refine Sim2.pre hi v ?_
+        simp only [disp] at h
+        split at ha
+        · cases ha
+        · next hx =>
+          split at ha
+          · cases ha
+          · next a1 h01 =>
+            split at ha
+            · next h11 =>
+              split at h
+              · cases h
+              · next s2 h2 =>
+                split at h
+                · cases h
+                · next n hn =>
+                  -- the factor
+                  obtain ⟨s2', ll, qd, hp⟩ := elementDescriptor_links hP hi1.assoc h2
+                  have hll : ll = [] := qd.nil.mpr (fun c => hx c.1)
+                  subst hll
+                  have it := Item.of_qa qd hp
+                  have hqq : qaStep (xOf fe.id) s1.regs.qa s2.regs.qa := by rw [hp.qa]; exact qd.qa
+                  have hi2 : Inv2 a.non33 s2 := it.inv hi1 rfl
+                    (by rw [hp.skipped, qd.skipped]; exact hi1.skip) (qaIn_non33 hx hi1.qa hqq)
+                  obtain ⟨jl, jr, ql, qr⟩ := join_facts ha
+                  -- the repetitions
+                  have body01 := fun s s' hi h => walkList_sim2 hP ms a.non33 a1 h01 s s' hi h
+                  have body11 := fun s s' hi h => walkList_sim2 hP ms a1 a1 h11 s s' hi h
+                  have x : Sim2 a.non33 a' GoodL s2 s' (fun o w => wireRepeat (wireList o ms) n w) := by
+                    cases n with
+                    | zero =>
+                      unfold iterN at h
+                      injection h with h
+                      subst h
+                      exact (Sim2.refl hi2 [] (fun o w => by unfold wireRepeat; rfl) (fun o => GoodL.nil o)).weaken
+                        (fun x => x.abs jl.2.2.2.2.2 ql) (fun _ _ x => x.abs jl.1 jl.2.1 jl.2.2.1 jl.2.2.2.1 jl.2.2.2.2.1)
+                    | succ n =>
+                      exact (iter_sim2_first (g := fun o => wireList o ms) body01 body11 n s2 s' hi2 h).weaken
+                        (fun x => x.abs jr.2.2.2.2.2 qr) (fun _ _ x => x.abs jr.1 jr.2.1 jr.2.2.1 jr.2.2.2.1 jr.2.2.2.2.1)
+                  refine ⟨⟨x.1.1, (it.ext hi1).trans x.1.2⟩, fun o w hf hr hb => ?_⟩
+                  have hb2 : Below2 o s2 := Below2.of_ext x.1.2 hb
+                  obtain ⟨hlt, hlab⟩ := item_pos it hr hb2
+                  have hc := count_sim2 hP hi1 it hr hb2.1 hn
+                  have hr2 : R o a.non33 s2 ((({ w with next := w.next + 1 } : WSt)).register w.next) :=
+                    hr.value (by rw [it.descs]; rfl) (by rw [it.links]; rfl) rfl rfl rfl rfl rfl hr.wq hr.w1 hr.wD
+                      (hr.m1.push hlab (nonop_plain fe)) (hr.mD.push hlab (nonop_plain fe))
+                  obtain ⟨ns, w', e1, hr', g⟩ := x.2 o _ hf hr2 hb
+                  dsimp only at e1
+                  refine ⟨.delayedRep id ms.length (.value .value w.next []) ns, w', ?_, hr', ?_, ?_⟩
+                  · dsimp only
+                    rw [take_eval hlt]
+                    simp only [hc, e1]
+                  · rw [treeOK1, g.1, factorOK, hc, wireRepeat_length o ms n _ _ _ e1]
+                    simp [hid]
+                  · rw [shape1, g.2]
+                    simp [valShape, ownShape, hlt]
+            · cases ha
+    | undefElem _ => simp [abs1] at ha
+    | undefSeq _ => simp [abs1] at ha
+    | fixedRep _ _ => simp [abs1] at ha
+    | delayedRep _ _ _ => simp [abs1] at ha
+    | op _ => simp [abs1] at ha
+    | seq _ _ => simp [abs1] at ha
+end
+
+/-! ### from a finished walk to the wired tree -/
+
+/-- what the wired tree of a `wireLinksOK` template satisfies -/
+structure Linked (t : List Desc) (o : SubsetOut) (w : Wired) : Prop where
+  wired : wireRaw t o = .ok w
+  next : w.st.next = o.vals.length
+  len : o.descs.length = o.vals.length
+  good : GoodL o w.nodes
+  noA : ∀ d ∈ o.descs, d.isAssoc = false
+  /-- every attribute attached through a link sits under the owner the coder's link names; the owner lies in front
+      of it; the attributes it was created with are none or its meaning node, which lies behind the owner -/
+  owners : ∀ p ∈ w.st.tab, ∃ k i own, p.2 = .value k i own ∧ p.1 < i ∧ i < w.st.next ∧
+    lookupLink o.links i = some p.1 ∧ OwnOK p.1 i own
+  /-- every link the coder recorded is shown -/
+  shown : ∀ q ∈ o.links, ∃ p ∈ w.st.tab, p.2.index? = some q.1
+
+theorem walk_linked {P : Prims} (hP : PushOne P) {t : List Desc} (hq : wireLinksOK t = true) {s0 s : St}
+    (hd0 : s0.descs = []) (hl0 : s0.links = []) (hr0 : s0.regs = {}) (hv0 : ∃ r, s0.vals = [] :: r)
+    (ha0 : ∀ l ∈ s0.vals, l = []) (hs : walkList P t s0 = .ok s) {o : SubsetOut}
+    (hod : o.descs = s.descs.reverse) (hol : o.links = s.links.reverse)
+    (hov : ∀ l, s.vals.head? = some l → o.vals = l.reverse)
+    (hlinks : ∀ l ∈ o.links, ∃ p id, l.2 < p ∧ p < l.1 ∧ C07.IsBitmapOp id ∧ o.descs[p]? = some (.oper id)) :
+    ∃ w, Linked t o w := by
+  unfold wireLinksOK at hq
+  cases habs : absList t {} with
+  | none => rw [habs] at hq; cases hq
+  | some a' =>
+    obtain ⟨r, hv0⟩ := hv0
+    have hi0 : Inv2 {} s0 := by
+      refine ⟨by rw [hr0], by rw [hr0], by rw [hr0], ⟨[], by rw [hv0]; rfl, by rw [hd0]; rfl⟩, ?_, ?_, by rw [hr0]; rfl,
+        by rw [hr0]; rfl⟩
+      · intro l hl; rw [ha0 l hl, hd0]; rfl
+      · intro d hd; rw [hd0] at hd; cases hd
+    have sim := walkList_sim2 hP t {} a' habs s0 s hi0 hs
+    obtain ⟨l, hl, hlen⟩ := sim.1.1.vals
+    have hvals := hov l hl
+    have hnoA : ∀ d ∈ o.descs, d.isAssoc = false := by
+      intro d hd
+      rw [hod] at hd
+      exact sim.1.1.noA d (List.mem_reverse.mp hd)
+    have hf : Fin o := ⟨hlinks, hnoA⟩
+    have hb : Below2 o s := by
+      refine ⟨⟨l, hl, ?_, ?_⟩, ?_⟩
+      · rw [hvals]; exact List.prefix_refl _
+      · rw [hod]; exact List.prefix_refl _
+      · rw [hol]; exact List.prefix_refl _
+    have hw0 : R o {} s0 {} := by
+      refine ⟨by rw [hd0]; rfl, rfl, rfl, rfl, rfl, rfl, MeanOK.off, MeanOK.off, ?_, ?_, ?_⟩
+      · intro j hj; exact absurd hj (Nat.not_lt_zero j)
+      · intro p hp; cases hp
+      · intro q hq; rw [hl0] at hq; cases hq
+    obtain ⟨ns, w', e, hr', g⟩ := sim.2 o {} hf hw0 hb
+    dsimp only at e
+    have hn : w'.next = o.vals.length := by rw [hr'.next, ← hlen, hvals]; simp
+    refine ⟨{ nodes := ns, st := w' }, by unfold wireRaw; rw [e], hn, by rw [hod, hvals]; simp [hlen], g, hnoA,
+      hr'.tabS, ?_⟩
+    intro q hq
+    rw [hol] at hq
+    exact hr'.tabC q (List.mem_reverse.mp hq)
+
+/-- the side conditions of the conversion theorem hold -/
+theorem Linked.sideOK {t : List Desc} {o : SubsetOut} {w : Wired} (h : Linked t o w) : w.sideOK o = true := by
+  unfold Wired.sideOK
+  rw [h.good.1, h.next]
+  simp only [Bool.true_and, beq_self_eq_true, Bool.and_true, List.all_eq_true]
+  intro p hp
+  obtain ⟨k, i, own, e, _, hi, _, _⟩ := h.owners p hp
+  rw [e]
+  have hlt : i < o.descs.length := by rw [h.len, ← h.next]; exact hi
+  have hd : o.descs[i]? = some o.descs[i] := List.getElem?_eq_getElem hlt
+  have hA := h.noA _ (List.getElem_mem hlt)
+  simp [tabAttrOK, hd, hA]
 
 end Bufr.C09
